@@ -224,10 +224,10 @@ type workerReq struct {
 
 type worker struct {
 	stdin interface{}
-	cmd *exec.Cmd
-	in  *bufio.Writer
-	out *bufio.Reader
-	id  int
+	cmd   *exec.Cmd
+	in    *bufio.Writer
+	out   *bufio.Reader
+	id    int
 }
 
 func startWorker(id int) (*worker, error) {
@@ -331,22 +331,25 @@ func (p *pool) stop() {
 // ---------------------------------------------------------------- configuration
 
 type tierCfg struct {
-	Configs   []map[string]int `json:"configs"`
-	MaxPaths  int              `json:"max_paths"`
-	TimeoutS  int              `json:"timeout_s"`
-	Budget    int64            `json:"budget"`
-	Validate  int              `json:"validate"` // paths whose model is re-run natively
+	Configs  []map[string]int `json:"configs"`
+	MaxPaths int              `json:"max_paths"`
+	TimeoutS int              `json:"timeout_s"`
+	Budget   int64            `json:"budget"`
+	Validate int              `json:"validate"` // paths whose model is re-run natively
+	// CrossEvery: one solver query in this many is re-asked of the second solver
+	// (0 = the default of 40; negative = off).
+	CrossEvery int `json:"cross_every"`
 }
 
 type harnessCfg struct {
 	// Only violations whose assertion id starts with one of these prefixes
 	// belong to this property (the harness is shared with another property).
 	AssertPrefix []string `json:"assert_prefix"`
-	Name     string  `json:"name"`
-	Pkg      string  `json:"pkg"`
-	Quick    tierCfg `json:"quick"`
-	Thorough tierCfg `json:"thorough"`
-	Note     string  `json:"note"`
+	Name         string   `json:"name"`
+	Pkg          string   `json:"pkg"`
+	Quick        tierCfg  `json:"quick"`
+	Thorough     tierCfg  `json:"thorough"`
+	Note         string   `json:"note"`
 	// OrderDependent: the harness quantifies over Go's map iteration order, which a
 	// native run cannot steer; a candidate is confirmed when any of several native
 	// runs fails (in whatever way the order at hand produces).
@@ -358,10 +361,10 @@ type harnessCfg struct {
 }
 
 type propCfg struct {
-	Harnesses []harnessCfg `json:"harnesses"`
-	Bounds    string       `json:"bounds"`
-	Outside   string       `json:"outside"`
-	Assumptions []string   `json:"assumptions"`
+	Harnesses   []harnessCfg `json:"harnesses"`
+	Bounds      string       `json:"bounds"`
+	Outside     string       `json:"outside"`
+	Assumptions []string     `json:"assumptions"`
 }
 
 func loadChecks() (map[string]propCfg, error) {
@@ -434,34 +437,34 @@ func globMatch(pat, s string) bool {
 // ---------------------------------------------------------------- exploration
 
 type exploreStats struct {
-	Harness      string
-	Params       map[string]int
-	Paths        int
-	Status       map[string]int
-	Forks        int
-	Queries      int
+	Harness                                     string
+	Params                                      map[string]int
+	Paths                                       int
+	Status                                      map[string]int
+	Forks                                       int
+	Queries                                     int
 	QSat, QUnsat, QUnknown, QSimplified, QCross int
-	SolverMs     float64
-	Instrs       int64
-	Funcs        map[string]bool
-	Stubs        map[string]bool
-	Reach        map[string]bool
-	Asserts      map[string]int
-	Inconclusive map[string]int
-	Violations   []interp.Violation
-	Samples      []map[string]interface{}
-	Models       []modelCase
-	Exhaustive   bool
-	WallS        float64
-	MaxInputs    int
-	StaticAsserts, StaticReach []string
-	EngineErrors []string
-	ForkSites    map[string]int
+	SolverMs                                    float64
+	Instrs                                      int64
+	Funcs                                       map[string]bool
+	Stubs                                       map[string]bool
+	Reach                                       map[string]bool
+	Asserts                                     map[string]int
+	Inconclusive                                map[string]int
+	Violations                                  []interp.Violation
+	Samples                                     []map[string]interface{}
+	Models                                      []modelCase
+	Exhaustive                                  bool
+	WallS                                       float64
+	MaxInputs                                   int
+	StaticAsserts, StaticReach                  []string
+	EngineErrors                                []string
+	ForkSites                                   map[string]int
 }
 
 type modelCase struct {
-	Inputs  map[string]uint64
-	Choices []int
+	Inputs   map[string]uint64
+	Choices  []int
 	Observed []string
 }
 
@@ -505,9 +508,15 @@ func explore(p *pool, h harnessCfg, tc tierCfg, params map[string]int, seed int6
 	results := make(chan result, len(p.ws))
 	inflight := 0
 	dispatched := 0
-	crossEvery := 0
+	crossEvery := tc.CrossEvery
+	if crossEvery == 0 {
+		crossEvery = 40
+	}
 	if v, ok := params["cross_every"]; ok {
 		crossEvery = v
+	}
+	if crossEvery < 0 {
+		crossEvery = 0
 	}
 	for len(frontier) > 0 || inflight > 0 {
 		for len(frontier) > 0 && len(idle) > 0 {
@@ -975,9 +984,9 @@ func checkMain(prop, tier string) int {
 	replayDir := envOr("VERIF_REPLAY_DIR", filepath.Join(verifDir, "replays"))
 	os.MkdirAll(replayDir, 0755)
 	type group struct {
-		key  string
-		vs   []*interp.Violation
-		prm  map[string]int
+		key string
+		vs  []*interp.Violation
+		prm map[string]int
 	}
 	groups := map[string]*group{}
 	var order []string
@@ -1255,7 +1264,7 @@ func writeEvidence(prop, tier string, seed int64, all []*exploreStats, pc propCf
 	}
 	ev := evidence{PropertyID: prop, Tier: tier, Seed: seed, Level: "model_checking", Coverage: cov,
 		Assumptions: append([]string{"harness preconditions (verifAssume) and intrinsics listed in stubs_hit are part of the claim", "bounded: only the shapes listed in bounds are covered"}, pc.Assumptions...),
-		WallS: round1(wall), Violations: nViol}
+		WallS:       round1(wall), Violations: nViol}
 	evDir := envOr("VERIF_EVIDENCE_DIR", filepath.Join(verifDir, "evidence"))
 	os.MkdirAll(evDir, 0755)
 	js, _ := json.MarshalIndent(ev, "", " ")
